@@ -42,9 +42,17 @@ func (p *P) Runs(tier string) int {
 	if tier == "thorough" {
 		return 240000
 	}
-	return 6000
+	return 4500
 }
 func (p *P) Init(env *core.Env) error { p.env = env; return nil }
+
+// famSizes: sizes of the one-big-expression inputs (the largest only in thorough)
+func (p *P) famSizes() []int {
+	if p.env != nil && p.env.Tier == "thorough" {
+		return []int{40, 150, 600, 2500}
+	}
+	return []int{40, 150, 600, 600}
+}
 func (p *P) Assumptions() []string {
 	return []string{
 		"the library observes cancellation only by polling ctx.Err() (ctx.Done() is also simulated, and its use is counted); the simulated context turns done exactly at poll k and stays done",
@@ -124,6 +132,14 @@ func (p *P) Run(src *tape.Source, trace bool) *core.Result {
 	g := gen.G{S: src}
 	entry := src.Intn(nEntries, "c11.entry")
 	sql := p.input(g)
+	famExprs := 0
+	if src.Intn(12, "c11.family") == 11 {
+		// an input whose bulk sits inside one top-level expression
+		sql, famExprs = gen.ExprFamily(src.Intn(4, "c11.fam"), p.famSizes()[src.Intn(len(p.famSizes()), "c11.famn")])
+		if entry == eTokenizeCtx {
+			entry = eParseCtxModel
+		}
+	}
 	pooled := src.Intn(2, "c11.pooled") == 1
 	r.CaseKey = canon.Hash(fmt.Sprint(entry, pooled, "\x00", sql))
 	r.Tracef(trace, fmt.Sprintf("entry=%s pooled=%v input=%q", entryNames[entry], pooled, sql))
@@ -276,6 +292,17 @@ func (p *P) Run(src *tape.Source, trace bool) *core.Result {
 		}
 	}
 
+	// documented: the parser polls the context at the start of every expression,
+	// recursively – an input with N nested expressions is polled at least N times
+	// (otherwise a cancellation arriving inside a huge list is not seen until the
+	// list has been parsed: unbounded further work)
+	if famExprs > 0 && o0.err == nil && entry != eTokenizeCtx {
+		r.Probes["expression-family-input"]++
+		if P < famExprs {
+			r.Fail("promptness", entryNames[entry]+" polls<expressions",
+				fmt.Sprintf("an input with at least %d nested expressions inside one top-level expression was polled only %d times (documented: the context is checked at the start of every expression, recursively): a cancellation arriving inside it goes unnoticed for the rest of the expression; input %q", famExprs, P, clipS(sql, 120)))
+		}
+	}
 	// --- enumerate cancellation points
 	ks := make([]int, 0, P)
 	if P <= 400 {
@@ -469,4 +496,11 @@ func poolName(site string) string {
 		return site[i+1:]
 	}
 	return site
+}
+
+func clipS(s string, n int) string {
+	if len(s) > n {
+		return s[:n] + "…"
+	}
+	return s
 }
